@@ -125,6 +125,9 @@ def scheduleOps (toks : List String) : String :=
   | "schedule.til" :: rest => (schedTil rest).getD "bad-op"
   | "schedule.irr" :: rest => (schedIrr rest).getD "bad-op"
   | "schedule.run" :: rest => (schedRun rest).getD "bad-op"
+  | ["schedule.tillog", d] => match d.toNat? with
+    | some d => if tillageLogged d then "1" else "0"
+    | none => "bad-op"
   | "schedule.irrigate" :: rest => (schedIrrigate rest).getD "bad-op"
   | _ => "bad-op"
 
